@@ -98,6 +98,8 @@ def fresh(r, old, taken, cls=None):
                     out.append(ch)
             if not pre and out and out[0].islower() and r.random() < 0.3:
                 out[0] = r.choice(PREFIX_LETTERS)       # first letter of a naming-class prefix, without the underscore
+            if len(out) >= 4 and "".join(out[-2:]).islower() and r.random() < 0.12:
+                out[-2:] = ["_", r.choice("tseug")]     # a suffix that looks like a type / class mark: `size_t`-like
             cand = pre + "".join(out)
         if cand == old or cand in taken or cand in conf.KEYWORDS or cand in conf.SPECIAL:
             continue
@@ -130,17 +132,20 @@ def rename(p, r):
 
 
 PROBE = ("{T}\t*{F}({T} *{V}, char *p)\n{{\n\tint\tn;\n\n\tn = ({T})*p;\n\tn = ({T})&n + ({T})-n;\n\tn = sizeof({T}) + ({T})~n;\n"
-         "\t{V} = ({T} *)p;\n\tn = {M} * n + {M}(n);\n\tn = {G} + {F}(NULL, p)->{W};\n\t{T} * {V};\n\t{K}(n);\n\treturn (({T} *)p);\n}}\n")
+         "\t{V} = ({T} *)p;\n\tn = ({W})*n;\n\tn = ({W}) * n + ({K})&n;\n\tn = {M} * n + {M}(n);\n\tn = {G} + {F}(NULL, p)->{W};\n\t{T} * {V};\n\t{K}(n);\n\treturn (({T} *)p);\n}}\n")
 TWIN = ("#define {M} 1\n\ntypedef struct s_{S}\n{{\n\tint\t{W};\n}}\t{T};\n\n{T}\t{G};\n\nint\t{K}({T} {V})\n{{\n\t{T}\t{W};\n"
         "\tstruct s_{S}\t*q;\n\n\t{W} = {V};\n\tq = &{W};\n\treturn (q->{W});\n}}\n")
 
 
 def name_set(r, like=None):
     def low(n):
-        return "".join(r.choice(string.ascii_lowercase) for _ in range(n))
+        w = "".join(r.choice(string.ascii_lowercase) for _ in range(n))
+        if n >= 3 and r.random() < 0.3:
+            w = w[:-2] + r.choice(["_t", "_t", "_s", "_e", "_u", "_g"])       # looks like a type / class suffix: still a plain name
+        return w
     ln = like or {}
     return {"T": "t_" + low(len(ln["T"]) - 2 if like else r.randint(2, 6)), "S": low(len(ln["S"]) if like else r.randint(1, 5)),
-            "V": low(len(ln["V"]) if like else r.randint(1, 6)), "W": low(len(ln["W"]) if like else r.randint(1, 6)),
+            "V": low(len(ln["V"]) if like else r.randint(1, 6)), "W": low(len(ln["W"]) if like else r.randint(3, 7)),
             "M": low(len(ln["M"]) if like else r.randint(2, 6)).upper(), "F": "ft_" + low(len(ln["F"]) - 3 if like else r.randint(2, 6)),
             "K": low(len(ln["K"]) if like else r.randint(3, 7)), "G": "g_" + low(len(ln["G"]) - 2 if like else r.randint(1, 5))}
 
